@@ -114,5 +114,13 @@ def build(repo):
     U.impl(C + 'unit.rs', 'impl Parser for Unit', {'parse': UNIT_PARSE}, extra_members=SP_MEMBERS)
     U.item(C + 'go.rs', 'struct Go', derive=())
     U.impl(C + 'go.rs', 'impl Parser for Go', {'parse': GO_PARSE}, extra_members=SP_MEMBERS)
+    # harper-ls: the git-commit front-end hands everything before the first '#' to the inner parser
+    G = 'harper-ls/src/git_commit_parser.rs'
+    U.item(G, 'struct GitCommitParser', derive=())
+    U.impl(G, 'impl Parser for GitCommitParser', {'parse': dict(
+        result='r', props=['C01', 'C02', 'C04'],
+        proofs=[dict(after='let end', text='assert(end <= source@.len());'),
+                dict(at='body_start', kind='ghost', text='let ghost n = source@.len() as int;')])},
+        extra_members=SP_MEMBERS)
     U.raw(common.FOOTER)
     return U
